@@ -1,6 +1,7 @@
 import Driver.Common
 import TxdbusModel.Client.Endpoints
 import TxdbusModel.Client.Lifecycle
+import TxdbusModel.Client.ConnectAuth
 /-!
 Driver for property C09.  One scenario per line:
 
@@ -15,6 +16,13 @@ Driver for property C09.  One scenario per line:
   lifeorig <addr> <ev>*  the pinned, unrepaired code (used by hand to validate the witness theorems)
       -> `<fx>* | ph=<phase> fired=<results> pend=<serial[t]>* timers=<serial>* dc=<ids> reg=<proxy ids> prox=<id:alive:cbs>*`
          or `parse-err <kind>` when the address does not parse
+
+  cah <r|o> <unix 0|1> <user bytes-hex> <answer bytes-hex> <N|U|E|G|-> <step>*     C09 x C07: one connection attempt through the handshake
+      (Client/ConnectAuth.lean): r = repaired client.py, o = pinned; the answer to Hello is complete once the binary
+      stream begins with <answer>, and is N (named) / U (no name) / E (error) / G (not a message: dataReceived raises), `-` = never;
+      step = r:<bytes hex> (one read) | l (connectionLost).  Cookie environment: the keyring directory does not exist.
+      -> <N|S:<hex>|C|A>* | auth=<0|1> disc=<0|1> closedAt=<step|-> firedAt=<step|-> fired=<results> ph=<phase>
+         evs=<lifecycle events generated> hello=<N|U|E|G|-> lost=<0|1> delivered=<number of reads that reached dataReceived>
 
   events: af[:refused|connectError|dnsLookup|timeout|other] ac ap ao ax hr he cl rp:<serial>:<0|1> ex:<serial> ca:<0|1>:<r> no:<r> cn:<c> pe:<key> pi:<key>
           pn:<p>:<r> pc:<p>:<c> dp:<p> cd:<serial> (the caller cancels the call's Deferred)          reactions r: n c u r p x
@@ -170,6 +178,83 @@ def procLine (pid : String) (addr : String) (toks : List String) : String :=
       | .error e => "parse-err " ++ errName e)
   | _, _, _ => "bad-input"
 
+namespace DrvCAH
+open Txdbus.Client Txdbus.Client.ConnectAuth
+
+def errName : Txdbus.AuthClient.CookieErr → List UInt8
+  | .oddLength => "oddLength".toUTF8.toList | .nonHex => "nonHex".toUTF8.toList | .arity => "arity".toUTF8.toList
+  | .badContext => "badContext".toUTF8.toList | .stat => "stat".toUTF8.toList | .perms => "perms".toUTF8.toList
+  | .owner => "owner".toUTF8.toList | .ctxAscii => "ctxAscii".toUTF8.toList | .openFile => "openFile".toUTF8.toList
+  | .noCookie => "noCookie".toUTF8.toList
+
+def parseOutcome : String → Option (Option HelloOutcome)
+  | "N" => some (some .named) | "U" => some (some .unnamed) | "E" => some (some .error) | "G" => some (some .garbage)
+  | "-" => some none
+  | _ => none
+
+def outcomeStr : Option HelloOutcome → String
+  | some .named => "N" | some .unnamed => "U" | some .error => "E" | some .garbage => "G" | none => "-"
+
+def parseStep (tok : String) : Option Step :=
+  if tok == "l" then some .lost
+  else match tok.splitOn ":" with
+    | ["r", h] => (hexToBytes? h).map Step.read
+    | _ => none
+
+def evStr : Txdbus.AuthClient.Ev → Option String
+  | .nul => some "N" | .recv _ => none | .send l => some ("S:" ++ bytesToHex l) | .close => some "C"
+  | .authenticated => some "A"
+
+def levStr : Txdbus.Client.Lifecycle.Ev → String
+  | .authOk => "ao" | .authFailed => "ax" | .helloReply true => "hr" | .helloReply false => "hr:noname"
+  | .helloError => "he" | .close => "cl" | _ => "?"
+
+/-- Run step by step; remember the first step at which the client had closed / the Deferred had fired. -/
+def runObs (cfg : Cfg) : ConnectAuth.St → List Step → Nat → Option Nat → Option Nat → ConnectAuth.St × Option Nat × Option Nat
+  | s, [], _, c, f => (s, c, f)
+  | s, st :: rest, i, c, f =>
+    let s' := Txdbus.Client.ConnectAuth.step cfg s st
+    let c' := match c with
+      | some k => some k
+      | none => if s'.proto.disconnecting then some i else none
+    let f' := match f with
+      | some k => some k
+      | none => if s'.life.fired.isEmpty then none else some i
+    runObs cfg s' rest (i + 1) c' f'
+
+def optNat : Option Nat → String
+  | some k => toString k
+  | none => "-"
+
+def line (toks : List String) : String :=
+  match toks with
+  | v :: unix :: user :: n :: o :: steps =>
+    match (if v == "r" then some Variant.repaired else if v == "o" then some Variant.original else none),
+          hexToBytes? user, hexToBytes? n, parseOutcome o, steps.mapM parseStep with
+    | some v, some user, some answer, some o, some steps =>
+      let env : Txdbus.AuthClient.Env :=
+        { user := user, dirStat := none, file := fun _ => none, rnd := [], sha1 := fun x => x, errText := errName }
+      let cfg : Cfg :=
+        { v := v, pref := Txdbus.Gen.ClientAuth.preference, unix := unix == "1", envAt := fun _ => env,
+          decode := fun b => if answer.isPrefixOf b then o else none }
+      let ep : Endpoint := { target := .unix ['/', 'x'], args := [] }
+      let s0 : ConnectAuth.St := init cfg (Txdbus.Client.Lifecycle.step v (connect [ep]) .attemptConnects)
+      let c0 := if s0.proto.disconnecting then some 0 else none
+      let (s, c, f) := runObs cfg s0 steps 0 c0 none
+      " ".intercalate (s.proto.trace.filterMap evStr) ++
+        " | auth=" ++ (if s.proto.authenticated then "1" else "0") ++
+        " disc=" ++ (if s.proto.disconnecting then "1" else "0") ++
+        " closedAt=" ++ optNat c ++ " firedAt=" ++ optNat f ++
+        " fired=" ++ (if s.life.fired.isEmpty then "-" else ",".intercalate (s.life.fired.map resName)) ++
+        " ph=" ++ phaseName s.life.phase ++
+        " evs=" ++ (if s.evs.isEmpty then "-" else ",".intercalate (s.evs.map levStr)) ++
+        " hello=" ++ outcomeStr s.hello ++ " lost=" ++ (if s.lost then "1" else "0") ++
+        " delivered=" ++ toString s.delivered.length
+    | _, _, _, _, _ => "bad-input"
+  | _ => "bad-input"
+
+end DrvCAH
+
 def step (line : String) : String :=
   match words line with
   | ["parse", a, se, sy, pid] =>
@@ -183,6 +268,7 @@ def step (line : String) : String :=
   | "proc" :: pid :: a :: toks => procLine pid a toks
   | "lifeorig" :: pid :: a :: evs => lifeLine .original pid a evs
   | "life5" :: pid :: a :: evs => lifeLine .fiveFixes pid a evs
+  | "cah" :: toks => DrvCAH.line toks
   | _ => "bad-input"
 
 def main : IO Unit := Driver.run (fun (s : Unit) line => (s, step line)) ()
